@@ -13,7 +13,9 @@ import (
 	"log/slog"
 	"net"
 	"os"
+	"reflect"
 	"sync"
+	"time"
 
 	wire "github.com/jeroenrinzema/psql-wire"
 	"github.com/jeroenrinzema/psql-wire/codes"
@@ -68,6 +70,17 @@ func Start(parse wire.ParseFn, opts ...wire.OptionFn) *Env {
 	srv, err := wire.NewServer(parse, all...)
 	if err != nil {
 		panic(err)
+	}
+	if ShortTimeouts {
+		// whatever timeouts this tree's server offers as exported duration fields (none on the pinned tree),
+		// an embedding program may set them, and set them short
+		v := reflect.ValueOf(srv).Elem()
+		for i := 0; i < v.NumField(); i++ {
+			if f := v.Field(i); f.CanSet() && f.Type() == reflect.TypeOf(time.Duration(0)) && f.Int() == 0 {
+				f.SetInt(int64(25 * time.Millisecond))
+				TimeoutsSet++
+			}
+		}
 	}
 	e := &Env{Srv: srv, L: tr.NewListener(), ServeErr: make(chan error, 1)}
 	go func() { e.ServeErr <- srv.Serve(e.L) }()
@@ -336,6 +349,12 @@ type ExecEnd struct {
 	ErrNil bool
 	Err    string
 }
+
+// ShortTimeouts makes Start set every exported, still-zero time.Duration field of the server to 25 ms.
+var ShortTimeouts bool
+
+// TimeoutsSet counts the fields so set.
+var TimeoutsSet int
 
 // Parse is the harness ParseFn.
 func Parse(ctx context.Context, query string) (wire.PreparedStatements, error) {
